@@ -22,15 +22,20 @@ TEXT = {
 
 TEXT.update({
     "C04": ("TLC model-checks MC_Session (one Streamer over several attempts, every fault kind of the quantifier at every point): ExactlyOnce, "
-            "ResumeIsBoundaryAfterAccepted; the same fault plans are executed on ONE real Streamer object against the simulated master and TLC "
-            "validates that the accepted transactions over all attempts are exactly the committed sequence and that each following dump request "
-            "is at the boundary after the last accepted transaction.", "§6 C04"),
+            "ResumeIsBoundaryAfterAccepted; EVERY session of that model within the bound is exported by TLC (Gen_Session) and replayed on ONE real "
+            "Streamer object against the simulated master, plus fault plans on random histories; TLC validates that the accepted transactions over "
+            "all attempts are exactly the committed sequence and that each following dump request is at the boundary after the last accepted "
+            "transaction; the hook-level trace of every attempt is replayed packet by packet against the parser model (Streamer!Step) and against "
+            "MC_Conn's actions (Trace_Conn).", "§6 C04"),
     "C05": ("TLC checks the goroutine/channel model MC_Conn under weak fairness (StreamTerminates, NothingLeftBehind, ErrorNeverBlocks, "
             "HandlerDiscipline, ConnectionClosed); every stop cause x stop point x reader state x handler state is replayed on the real code "
-            "under the race detector and TLC validates bounded-time return, socket closed at the master, no library goroutine left, handler "
-            "discipline and that every Error() call returns.", "§6 C05"),
+            "under the race detector, and behaviours of MC_Conn drawn by TLC (Gen_Conn) are replayed with the library's hook points as scheduler "
+            "gates so that the real goroutines follow TLC's interleaving; TLC validates bounded-time return, socket closed at the master, no library "
+            "goroutine left (before and after Error() is called), handler discipline and that every Error() call returns; hook-level traces are "
+            "validated against MC_Conn's own actions (Trace_Conn).", "§6 C05"),
     "C06": ("TLC checks ReasonReported on MC_Conn (all orderings of errChan publication, channel closes and the parser's select); the stop "
-            "schedules are replayed on the real code and TLC validates the return values of Stream and Error() against the stop cause.", "§6 C06"),
+            "schedules and the TLC-generated schedules (Gen_Conn, hook points as scheduler gates) are replayed on the real code and TLC validates "
+            "the return values of Stream and Error() against the stop cause.", "§6 C06"),
     "C07": ("TLC checks HandshakeExact on MC_Session; the simulated master decodes COM_QUERY / COM_BINLOG_DUMP of every attempt and TLC "
             "validates order, count, flags, server id and position bytes (server ids >= 2^31, 255-byte/UTF-8 names, offsets to 2^32-1).", "§6 C07"),
     "C08": ("TLC checks Stable on the memory-region model MC_Buffers; on the real code every delivered transaction is deep-projected at "
@@ -40,7 +45,7 @@ TEXT.update({
 
 NOTE = ("Assumes: TLC and the CommunityModules Json module are correct; the simulated master implements the protocol subset of "
         "DESIGN.md A.1; the format transcription in spec/*.tla (checked against server-captured vectors by spec/Test_*.tla) is right; "
-        "bounded waits of 10 s stand for 'bounded time'.")
+        "bounded waits of 8 s stand for 'bounded time'.")
 
 
 def main():
